@@ -371,8 +371,14 @@ class Effects:
                 facts = facts_before(fnode, st, cfg, stmts)
                 lo = lower_bound(facts, lin[0])
                 hi = upper_bound(facts, lin[0])
-                if lo is None and hi is None and lin[0] in fi.params:
-                    lo = self.param_lower(fi, lin[0])
+                if lin[0] in fi.params:
+                    # what every (non-recursive) call site establishes about the argument also holds here
+                    lc = self.param_lower(fi, lin[0])
+                    if lc is not None:
+                        lo = lc if lo is None else max(lo, lc)
+                from .guards import has as _has
+                if _has(facts, lin[0], "!=", "", -lin[1]):
+                    continue        # a dominating guard excludes exactly the value that makes the divisor 0
                 if lo is not None and lo + lin[1] >= 1:
                     continue
                 if hi is not None and hi + lin[1] <= -1:
@@ -416,7 +422,7 @@ class Effects:
                 if not isinstance(n, ast.Call):
                     continue
                 ts, _ = self.res.targets(caller, n)
-                if fi not in ts:
+                if fi not in ts or caller is fi:
                     continue
                 arg = None
                 for k in n.keywords:
@@ -503,16 +509,22 @@ class Effects:
         return b
 
     EMPTY_SOURCES = ("strip", "split", "readline", "rstrip", "lstrip", "read")
+    # facts: parameters that hold the words of a command line argument (argparse hands over any string, '' included)
+    ARGV_WORD_LISTS = {("cnfgen.clitools.graph_args", "parse_graph_argument"): ["spec"]}
 
     def _const_index(self, fi, stmts):
         """``v[k]`` (k an integer literal) where v was produced by a possibly-empty producer and no emptiness test protects it"""
         out = []
         fnode = fi.node
         producers = {}
+        words = self.ARGV_WORD_LISTS.get((fi.module.name, fi.qualname), [])
         for s in stmts:
             if isinstance(s, ast.Assign) and len(s.targets) == 1 and isinstance(s.targets[0], ast.Name):
                 v = s.value
                 if isinstance(v, ast.Call) and isinstance(v.func, ast.Attribute) and v.func.attr in self.EMPTY_SOURCES:
+                    producers.setdefault(s.targets[0].id, []).append(s)
+                # an element of a list of command line words: any string, the empty one included
+                if isinstance(v, ast.Subscript) and isinstance(v.value, ast.Name) and v.value.id in words and not isinstance(v.slice, ast.Slice):
                     producers.setdefault(s.targets[0].id, []).append(s)
         cfg = None
         for n in walk_shallow(fnode):
